@@ -32,7 +32,7 @@ out = ["# Seeded changes (independent sub-agents; each breaks one property while
        "Every change was confirmed with `tools/seedtest.sh` in a scratch worktree of the current tree (applies, existing suite still "
        "passes, the agent's demonstration fails with the change and passes without it) and the quick check was run against that "
        "worktree (never against /repo). Variants a, b: round 1; c, d (C12: d, e): round 2, from agents that were told what round 1 "
-       "had tried and asked for changes that only show through unusual but legitimate use; e, f, g (C12: f, g, h): round 3; the next two letters: round 4 (C18e, C18f were re-made on top of the F17/F18 repair); the next two (C12: three): round 5; the last one: round 6. "
+       "had tried and asked for changes that only show through unusual but legitimate use; e, f, g (C12: f, g, h): round 3; the next two letters: round 4 (C18e, C18f were re-made on top of the F17/F18 repair); the next two (C12: three): round 5; then one per round: round 6, round 7 (eight properties). "
        "`tools/seedsweep.sh` re-runs all of them against the committed tree; the last two columns are from its latest run.", "",
        "| change | what it is | how it was caught / what had to be strengthened | check exit | first verdict |", "|---|---|---|---|---|"]
 for name, m in rows:
